@@ -223,6 +223,7 @@ def delegation_externals():
     ext = {'TraversalMut::next': rec('next'), 'TraversalMut::size_hint': rec('size_hint'), 'TraversalMut::new': rec('new'),
            'TraversalMut::skip_subtree': rec('skip_subtree'), 'afftree_from_layers_generic': rec3('afftree_from_layers_generic'),
            'write_func': rec('write_func'), 'write_poly': rec('write_poly'), 'Tree::add_root': add_root, 'Ord::max': lambda a: a[0],
+           'AffFuncBase::from_mats': rec('from_mats'), 'Slab::is_empty': rec('is_empty'),
            'Slab::with_capacity': lambda a: ('empty_slab',), 'Slab::new': lambda a: ('empty_slab',), '#consts': {'K': 2}}
     rows_cols = ('array', {0: atom('ROWS'), 1: atom('COLS')}, PANIC)
 
@@ -357,6 +358,37 @@ TABLES.update({
     'PolyhedraGen::current_polytope': (cases_current_polytope, 'the stack of half-spaces of the current path'),
     '<AffFuncBasePrinter as Display>::fmt@FunctionT': (cases_printer('write_func'), 'write_func on the wrapped function with the wrapped options'),
     '<AffFuncBasePrinter as Display>::fmt@PolytopeT': (cases_printer('write_poly'), 'write_poly on the wrapped polytope with the wrapped options'),
+})
+def cases_to_poly():
+    aff = struct('linalg::affine::AffFuncBase', mat=atom('MAT'), bias=atom('BIAS'), _phantom=atom('PH'))
+    c = struct('pwl::node::AffContent', aff=aff, state=('enum', 'pwl::node::NodeState', 'Indeterminate', {}))
+    return [('any node', [c], ('called', 'from_mats', [atom('MAT'), atom('BIAS')]))]
+
+
+def cases_feasible_witnesses():
+    aff = atom('AFF')
+    st = lambda v, **f: ('enum', 'pwl::node::NodeState', v, f)
+    c = lambda s_: struct('pwl::node::AffContent', aff=aff, state=s_)
+    return [('a node with witnesses', [c(st('FeasibleWitness', **{'0': atom('WITNESSES')}))], atom('WITNESSES')),
+            ('a feasible node without witnesses', [c(st('Feasible'))], ('empty_vec',)),
+            ('an infeasible node', [c(st('Infeasible'))], ('empty_vec',)),
+            ('a node of unknown state', [c(st('Indeterminate'))], ('empty_vec',))]
+
+
+def cases_tree_is_empty():
+    return [('any tree', [struct(TREE, root=atom('ROOT'), arena=atom('ARENA'))], ('called', 'is_empty', [atom('ARENA')]))]
+
+
+def cases_afftree_is_empty():
+    return [('any tree', [struct('pwl::afftree::AffTree', tree=struct(TREE, root=atom('ROOT'), arena=atom('ARENA')), in_dim=atom('DIM'))],
+             ('called', 'is_empty', [atom('ARENA')]))]
+
+
+TABLES.update({
+    'AffContent::to_poly': (cases_to_poly, 'the polytope with the node\'s matrix and bias'),
+    'AffContent::feasible_witnesses': (cases_feasible_witnesses, 'the stored witnesses of a FeasibleWitness node, nothing for every other state'),
+    'Tree::is_empty': (cases_tree_is_empty, 'true exactly when nothing is stored in the arena'),
+    'AffTree::is_empty': (cases_afftree_is_empty, 'true exactly when nothing is stored in the arena'),
 })
 ONCE = {'<TraversalIter as Iterator>::next': 'next', '<TraversalIter as Iterator>::size_hint': 'size_hint', 'tree::iter::TraversalMut::iter': 'new',
         'TraversalIter::skip_subtree': 'skip_subtree', 'TraversalIter::new': 'new', 'afftree_from_layers': 'afftree_from_layers_generic',
@@ -647,17 +679,17 @@ DEPS = {'C01': ['Tree::children', 'Tree::is_leaf', 'Tree::num_children', 'Tree::
         'C02': ['Tree::children', 'Tree::is_leaf', 'Tree::get_root', '<AffFuncBase as Clone>::clone', 'AffFuncBase::indim', 'AffFuncBase::outdim'],
         'C03': ['Tree::children', 'Tree::contains', 'Tree::num_children', 'Tree::parent', 'Tree::is_leaf'],
         'C04': ['InputError::expect_dim', 'Tree::is_leaf', 'AffFuncBase::indim', 'AffFuncBase::outdim', 'AffFuncBase::n_constraints', 'TreeNode::new', 'Tree::with_root'],
-        'C05': ['Tree::parent', 'Tree::children', 'Tree::contains', 'Tree::node_value'],
+        'C05': ['Tree::parent', 'Tree::children', 'Tree::contains', 'Tree::node_value', 'AffContent::feasible_witnesses'],
         'C06': ['Tree::contains', 'Tree::num_children', 'Tree::parent', 'Tree::children'],
         'C07': ['<AffFuncBase as Clone>::clone', 'Tree::children', 'Tree::is_leaf', '<TraversalIter as Iterator>::next'],
         'C08': ['TreeNode::children_iter', 'tree::iter::TraversalMut::iter', '<TraversalIter as Iterator>::next', 'Tree::tree_node'],
         'C09': ['Tree::parent', 'Tree::child', 'Tree::children', 'Tree::get_root', 'Tree::node_value', 'Tree::num_children', '<TraversalIter as Iterator>::next', 'PolyhedraGen::current_polytope'],
         'C11': ['Tree::parent', 'Tree::children', 'Tree::contains'],
-        'C12': ['TreeNode::new', 'Tree::is_root', 'Tree::is_leaf', 'Tree::contains', 'Tree::tree_node', 'Tree::node_value', 'Tree::get_root', 'Tree::child', 'Tree::parent', 'Tree::num_children', 'TreeNode::children_iter', 'Tree::children', '<Tree as Index>::index', 'Tree::with_capacity', 'Tree::new', '<Tree as Default>::default', 'Tree::with_root', '<NodeError as From>::from', 'EdgeReferenceMut::extract', 'EdgeReferenceMut::edge', 'NodeReferenceMut::index'],
-        'C13': ['TreeNode::children_iter', 'Tree::children', 'Tree::nodes', 'Tree::edge_iter', '<TraversalIter as Iterator>::next', '<TraversalIter as Iterator>::size_hint', 'TraversalIter::from', 'tree::iter::TraversalMut::iter', 'Tree::is_leaf', 'Tree::parent', 'Tree::get_root', '<DfsPre as TraversalMut>::size_hint', '<DfsEdge as TraversalMut>::size_hint', '<Bfs as TraversalMut>::size_hint', 'TraversalIter::skip_subtree', 'TraversalIter::new', 'EdgeReference::extract', 'EdgeReference::edge', 'NodeReference::index'],
+        'C12': ['TreeNode::new', 'Tree::is_root', 'Tree::is_leaf', 'Tree::contains', 'Tree::tree_node', 'Tree::node_value', 'Tree::get_root', 'Tree::child', 'Tree::parent', 'Tree::num_children', 'TreeNode::children_iter', 'Tree::children', '<Tree as Index>::index', 'Tree::with_capacity', 'Tree::new', '<Tree as Default>::default', 'Tree::with_root', '<NodeError as From>::from', 'EdgeReferenceMut::extract', 'EdgeReferenceMut::edge', 'NodeReferenceMut::index', 'Tree::is_empty'],
+        'C13': ['TreeNode::children_iter', 'Tree::children', 'Tree::nodes', 'Tree::edge_iter', '<TraversalIter as Iterator>::next', '<TraversalIter as Iterator>::size_hint', 'TraversalIter::from', 'tree::iter::TraversalMut::iter', 'Tree::is_leaf', 'Tree::parent', 'Tree::get_root', '<DfsPre as TraversalMut>::size_hint', '<DfsEdge as TraversalMut>::size_hint', '<Bfs as TraversalMut>::size_hint', 'TraversalIter::skip_subtree', 'TraversalIter::new', 'EdgeReference::extract', 'EdgeReference::edge', 'NodeReference::index', 'AffTree::is_empty'],
         'C14': ['AffFuncBase::indim', 'AffFuncBase::outdim', 'AffFuncBase::n_constraints'],
         'C15': ['AffFuncBase::n_constraints', 'AffFuncBase::indim', '<AffFuncBase as Clone>::clone'],
-        'C16': ['AffFuncBase::indim', 'AffFuncBase::outdim', 'AffFuncBase::n_constraints', '<AffFuncBase as Clone>::clone'],
+        'C16': ['AffFuncBase::indim', 'AffFuncBase::outdim', 'AffFuncBase::n_constraints', '<AffFuncBase as Clone>::clone', 'AffContent::to_poly'],
         'C17': ['InputError::expect_dim', 'AffFuncBase::n_constraints', 'AffFuncBase::indim', 'Tree::with_root'],
         'C18': ['Architecture::new', 'Architecture::operators', '<Architecture as IntoIterator>::into_iter'],
         'C19': ['Tree::edge_iter', 'TreeNode::children_iter', 'Tree::num_children', '<AffFuncBasePrinter as Display>::fmt@FunctionT', '<AffFuncBasePrinter as Display>::fmt@PolytopeT']}
